@@ -4,7 +4,7 @@ CONSTANTS
   ImrVals <- ImrSmall
   MaxDepth = 7
   MaxNest = 2
-  AckOnReturn = FALSE
+  AckOnReturn = TRUE
   RecordActs = FALSE
 INVARIANT DeliverOnlyIfEnabled
 INVARIANT FrameOnEntry
